@@ -72,6 +72,12 @@ def obligations(tier: str) -> list[Ob]:
             bounds={"responses": "200 + {default} + {dangling 404}", "request media types": "none / json / json+xml / xml / json+png+form"},
         ),
         harness_ob(
+            "tag_directories", "C16_tags.py", tier, timeout=200 if q else 600, cpus=1,
+            encoded=["openapi_python_client:Project._build_api"],
+            stubs=["template rendering -> a marker naming the endpoint it was asked to render; file system recorded"],
+            bounds={"operations": "5 (two whose module names coincide under disjoint tag sets)", "generate_all_tags": "both"},
+        ),
+        harness_ob(
             "class_name_twins", "C07_accounting.py", tier, funcs=["class_name_twins_are_never_merged_silently"], timeout=200 if q else 600, cpus=1,
             encoded=["openapi_python_client.parser.properties:build_schemas", "openapi_python_client.parser.properties.model_property:ModelProperty.build"],
             bounds={"name pairs with one class name": 5, "definitions": "3 x 3 (equal by value, different, differing only in description)", "declaration order": "both"},
